@@ -52,9 +52,8 @@ def build(clean: bool = False, jobs: int = 8, timeout: int = 1500) -> tuple[bool
 def hygiene() -> list[str]:
     """Forbidden declarations anywhere in the development (comments stripped)."""
     bad = []
-    for f in sorted(COQ.rglob("*.v")):
-        if "gen" in f.relative_to(COQ).parts:
-            continue
+    listed = [COQ / l.strip() for l in (COQ / "_CoqProject").read_text().splitlines() if l.strip().endswith(".v")]
+    for f in sorted(listed):  # the development = the files of _CoqProject (everything the build and the proofs use)
         txt = f.read_text()
         txt = strip_comments(txt)
         in_section = 0
